@@ -426,6 +426,14 @@ func (e *fwEnv) simple(s ast.Stmt) ([]string, error) {
 		if len(v.Rhs) != 1 || (v.Tok != token.ASSIGN && v.Tok != token.DEFINE) {
 			return nil, e.bad(s, "assignment form")
 		}
+		// t := path + ".tmp": a fixed temp-file name derived from path (pure binding)
+		if be, ok := v.Rhs[0].(*ast.BinaryExpr); ok && len(v.Lhs) == 1 && be.Op == token.ADD && e.mentionsPath(be) {
+			if a, ok := v.Lhs[0].(*ast.Ident); ok && (e.tmpExpr == "" || e.tmpExpr == e.src(be)) {
+				e.tmpExpr = e.src(be)
+				e.tmpVars[a.Name] = true
+				return nil, nil
+			}
+		}
 		c, ok := v.Rhs[0].(*ast.CallExpr)
 		if !ok {
 			return nil, e.bad(s, "assignment of a non-call")
